@@ -206,12 +206,15 @@ def c08(run):
     from rules import r_cnt
     P = run.prog('rel')
     r_cnt.run(run, P)
-    run.min_instances('R-CNT-CON', 6)
+    r_cnt.run_dequeue(run, P)
+    run.min_instances('R-CNT-CON', 8)
     run.assumptions = ASSUME_COMMON + ["the in-flight bound under all ACK/RST orders and losses and the FIFO order of held messages are NOT decided"]
     return run.finish(
         "Accounting discipline of session->con_active on every path: only ++/--/=0 write it; every decrement happens with a send-queue node in "
         "hand (reached through a coap_queue_t* or with one known non-NULL); every increment is reached only on the below-the-limit arm of a "
-        "comparison with NSTART, and the two functions that first transmit an unreliable Confirmable count it. Necessary for the NSTART bound.")
+        "comparison with NSTART, and the two functions that first transmit an unreliable Confirmable count it; conversely a node that "
+        "coap_remove_from_queue() hands out and that is then deleted has been un-counted on that path (or was no Confirmable / the count is 0). "
+        "Necessary for the NSTART bound and for held messages going out when earlier exchanges finish.")
 
 
 def c06(run):
